@@ -145,22 +145,48 @@ def r2(ctx):
         init = fn_of(ctx, modname, f"{cls}.__init__")
         m = init.module
         for attr, table, support, ctl in (("_supported_modes", "_API_MODE_CONTROL_MAPPING", "ac_mode_support", "AcModeControl"), ("_supported_fan_speeds", "_API_FAN_SPEED_CONTROL_MAPPING", "fan_speed_support", "AcFanSpeedControl")):
-            vals = [v for n, v in init.assigns(f"self.{attr}")]
-            ok = False
-            found = ", ".join(norm_text(v)[:120] for v in vals) or "not assigned"
-            if len(vals) == 1 and isinstance(vals[0], ast.ListComp) and len(vals[0].generators) == 1:
-                lc = vals[0]
-                gen = lc.generators[0]
-                it = gen.iter
-                while isinstance(it, ast.Call) and not (isinstance(it.func, ast.Attribute) and it.func.attr == "items"):
-                    it = it.args[0] if it.args else it
+            # evaluated (sa/minieval.py): the constructor run on ability records with different support maps must leave
+            # exactly the API values whose control value the record reports as supported, in table order
+            from ..minieval import FakeObj, Mini, Unsupported
+
+            rows0 = ctx.repo.dict_table(m, table)
+            ctls = []
+            for _, v_, _, _ in rows0:
+                if v_ not in ctls:
+                    ctls.append(v_)
+            params = [a_.arg for a_ in init.node.args.args][1:] + [a_.arg for a_ in init.node.args.kwonlyargs]
+            ok, found = True, ""
+            tried = 0
+            for pattern in ("all", "none", "even", "odd", "first"):
+                sup = {c_: {"all": True, "none": False, "even": i % 2 == 0, "odd": i % 2 == 1, "first": i == 0}[pattern] for i, c_ in enumerate(ctls)}
+                # the maps of both lists are given, each with the same pattern over its own control enum
+                def smap(tbl):
+                    cs = []
+                    for _, v2, _, _ in ctx.repo.dict_table(m, tbl):
+                        if v2 not in cs:
+                            cs.append(v2)
+                    return {c2: {"all": True, "none": False, "even": i % 2 == 0, "odd": i % 2 == 1, "first": i == 0}[pattern] for i, c2 in enumerate(cs)}
+
+                ability = FakeObj("AcAbility", ac_number=0, ac_mode_support=smap("_API_MODE_CONTROL_MAPPING"), fan_speed_support=smap("_API_FAN_SPEED_CONTROL_MAPPING"), min_set_point=16, max_set_point=30, min_cool_set_point=16, max_cool_set_point=30, min_heat_set_point=16, max_heat_set_point=30)
+                args = {p_: (ability if p_ == "ac_ability" else ([] if p_ == "zones" else FakeObj("stub"))) for p_ in params}
+                env = dict(args)
+                mini = Mini(ctx.repo, m, {}, init.cls, lenient=True)
+                try:
+                    mini.run(init.node.body, env)
+                except Unsupported as ex:
+                    raise AnalysisError(f"{m.relpath}: {cls}.__init__ left the evaluable fragment: {ex}")
+                except Exception as ex:  # _Return etc.
+                    if type(ex).__name__ not in ("_Return",):
+                        raise AnalysisError(f"{m.relpath}: {cls}.__init__: {type(ex).__name__} during evaluation")
+                got = env.get(f"self.{attr}")
+                want = [k_ for k_, v2, _, _ in rows0 if sup[v2]]
+                tried += 1
+                if got != want:
+                    ok, found = False, f"support pattern '{pattern}': self.{attr} = {got!r}, expected {want!r}"
                     break
-                tgt = gen.target
-                if isinstance(it, ast.Call) and isinstance(it.func, ast.Attribute) and it.func.attr == "items" and dotted(it.func.value) == table and isinstance(tgt, ast.Tuple) and len(tgt.elts) == 2 and all(isinstance(e, ast.Name) for e in tgt.elts):
-                    k, v = tgt.elts[0].id, tgt.elts[1].id
-                    cond_ok = len(gen.ifs) == 1 and norm_text(gen.ifs[0]) == f"self._ac_ability.{support}[{v}]"
-                    ok = isinstance(lc.elt, ast.Name) and lc.elt.id == k and cond_ok
-            ctx.check(ok, R, f"{cls}.{attr}", m, init.node, f"[api for api, ctl in {table}.items() if self._ac_ability.{support}[ctl]]", found)
+            if ok:
+                found = f"{tried} support maps evaluated"
+            ctx.check(ok, R, f"{cls}.{attr}", m, init.node, f"the API values of {table} whose control value the ability record reports as supported ({support})", found)
             rows = ctx.repo.dict_table(m, table)
             ok = all(isinstance(v, EnumVal) and v.cls.name == ctl for _, v, _, _ in rows)
             ctx.check(ok, R, f"{cls}:{table}:values", m, m.assign_nodes[table], f"values are {ctl} members (the keys of the ability's support map)", ", ".join(repr(v) for _, v, _, _ in rows)[:120])
